@@ -425,8 +425,8 @@ def check_c03(pid, tier, seed):
     for i in range(nsingle):
         f = fens[i % len(fens)]
         w = rnd.choice([1, 1, 2, 3, 4, 8, 32]) if i % 5 else 1
-        st = {"fen": f, "depth": rnd.choice([1, 2, 2, 3, 3, 4 if w == 1 else 3]), "seed": rnd.randrange(1 << 30), "workers": w, "tables": rnd.choice([1, 2, 8]), "buckets": rnd.choice([1, 16, 1024]),
-              "tag": "single"}
+        st = {"fen": f, "depth": rnd.choice([1, 2, 2, 3, 3, 4 if w == 1 else 3]), "seed": rnd.randrange(1 << 30) if i % 9 else rnd.choice([0, 1, (1 << 63), (1 << 64) - 1]), "workers": w,
+              "tables": rnd.choice([1, 2, 8]), "buckets": rnd.choice([1, 16, 1024]), "tag": "single"}
         if w > 1 and i % 2 == 0:
             st["sched"] = [rnd.randrange(1 << 30), rnd.choice([0.0, 0.5, 0.9])]
         sid += 1
